@@ -75,13 +75,14 @@ def eval_cases(tag, dumps, cases, fn="run_rt", shard=300, timeout=400):
     by_m = {}
     for n, (m, tid, v) in enumerate(cases):
         by_m.setdefault(m, []).append(n)
-    shards, cur, cnt = [], [], 0
+    shards, cur, cnt, size = [], [], 0, 0
     for m in sorted(by_m):
         cur.append(m)
         cnt += len(by_m[m])
-        if cnt >= shard:
+        size += sum(len(json.dumps(cases[n][2])) for n in by_m[m])
+        if cnt >= shard or size >= 60000:
             shards.append(cur)
-            cur, cnt = [], 0
+            cur, cnt, size = [], 0, 0
     if cur:
         shards.append(cur)
     paths = []
